@@ -684,6 +684,37 @@ def r07i(ctx):
     ctx.floor("R07i", n, 1, "builders registered for set / frozenset")
 
 
+def r07j(ctx):
+    m = ctx.model
+    ctx.rule("R07j", "memoised functions hand out immutable values: a function under functools.lru_cache / cache must not return an "
+                     "instance of a project class that is refined in place (an Edit / Bounded object whose bounds tighten lazily, or "
+                     "a node): every caller would share one object, and what one comparison refined would change the next one")
+    BOUNDED = m.find_class("Bounded")
+    TREE = "graphtage.tree.TreeNode"
+    n = 0
+    for fq, f in sorted(m.functions.items()):
+        decs = [dotted(d.func) if isinstance(d, ast.Call) else dotted(d) for d in f.node.decorator_list]
+        if not any(d and d.rsplit(".", 1)[-1] in ("lru_cache", "cache", "cached_property") for d in decs):
+            continue
+        n += 1
+        stateful = []
+        for r in walk_no_nested(f.node):
+            if isinstance(r, ast.Return) and isinstance(r.value, ast.Call):
+                k = m.resolve_class(f.module, r.value.func)
+                if k and (m.method(k, "tighten_bounds") is not None or m.is_subclass(k, TREE) or (BOUNDED and m.is_subclass(k, BOUNDED))):
+                    stateful.append((r, k))
+        if stateful:
+            r, k = stateful[0]
+            ctx.violation("R07j", f.file, f.short, r, f"{f.short} memoises a stateful object",
+                          f"{f.short} is memoised ({', '.join(d for d in decs if d)}) and returns `{norm(r.value, 50)}`, a {k.rsplit('.', 1)[-1]}: its "
+                          f"bounds are tightened in place, so every later call with the same arguments receives an object some earlier "
+                          f"comparison already refined - matcher decisions taken on non-final bounds then depend on what was diffed "
+                          f"before in the same process")
+        else:
+            ctx.proved("R07j", f.file, f.short, f.node, f"{f.short} memoises a stateful object", "memoised value is not a lazily refined project object", nontrivial=False)
+    ctx.note(f"R07j: {n} memoised function(s) in the package")
+
+
 def run(ctx):
     m = ctx.model
     cg = CallGraph(m)
@@ -700,6 +731,7 @@ def run(ctx):
     r07g(ctx)
     r07h(ctx)
     r07i(ctx)
+    r07j(ctx)
     ctx.assume("the CLI entry point owns its process: main() closes the stream it printed to (sys.stdout), so calling main() "
                "twice on the real stdout in one process is not part of what is decided (callers pass their own stream)")
     ctx.assume("third-party libraries (scipy assignment, json/yaml/plist encoders, intervaltree iteration) are deterministic")
